@@ -43,6 +43,12 @@ CLAIMED = {
             "Exact real arithmetic; float cancellation for tiny |psi| is outside.", "4/C03",
             "symbolic execution of the real code on z3-term jets + z3 nlsat per scalar obligation; float replay of models",
             "Some Log_SE3_H translational rows stay undecided within the time-out and are listed as inconclusive in the evidence."),
+    "C05": ("proof", "For each joint class on a grid of subsystem pairings and axes (real objects assembled in a real System), the six levels of "
+            "the kinematic hierarchy (g_dot = d/dt g, W_g = (d g_dot/du)^T, g_dot_u = W_g^T, g_ddot = d/dt g_dot, g_q, g_dot_q, Wla_g_q) are decided entry "
+            "by entry for all real states, non-unit quaternions and constraint-violating states included; 'satisfied where defined' with fully "
+            "symbolic initial poses and joint placement.", "4/C05",
+            "symbolic execution of the real joint code on z3-term jets + z3 nlsat per scalar obligation; float replay of models",
+            "Bounded configuration grid (see evidence.coverage.bounds); rod cross-section pairings are outside."),
 }
 
 NOT_APPLICABLE = {
